@@ -126,7 +126,7 @@ fn check() {
             }
         });
         let contexts: Arc<Contexts> = Default::default();
-        let mut hs = vec![];
+        let mut todo = vec![];
         for &t in &ts {
             for pre in 0..3u8 {
                 for p in &patterns {
@@ -138,13 +138,18 @@ fn check() {
                     if t == 4 && (pre != 0 || p.iter().filter(|&&e| e != 0).count() > if chk.thorough() { 3 } else { 2 }) {
                         continue;
                     }
-                    hs.push(tokio::spawn(run_pattern(contexts.clone(), p.clone(), pre, t, slot, horizon)));
+                    todo.push((p.clone(), pre, t));
                 }
             }
         }
+        // in batches: tens of thousands of tunnels at once make the runtime itself late (each has a 1 s ticker), and a
+        // deadline verdict must not measure the harness
         let mut out = vec![];
-        for h in hs {
-            out.push(h.await.expect("pattern task"));
+        for batch in todo.chunks(6000) {
+            let hs: Vec<_> = batch.iter().map(|(p, pre, t)| tokio::spawn(run_pattern(contexts.clone(), p.clone(), *pre, *t, slot, horizon))).collect();
+            for h in hs {
+                out.push(h.await.expect("pattern task"));
+            }
         }
         out
     });
